@@ -27,6 +27,6 @@ CONSTANTS
   WANTED = {}
   PREFUND = 0
   PREDEL = 0
-  EVENTS = {"Deposit","Withdraw","Delegate","Undelegate","Associate","Dissociate","Slash","NstUpdate","ReleaseHold","EndBlock"}
+  EVENTS = {"Deposit","Withdraw","Delegate","Undelegate","Associate","Dissociate","Slash","NstUpdate","ReleaseHold","EndBlock","MsgDelegate","MsgUndelegate"}
 INVARIANTS EmitAtDepth
 CHECK_DEADLOCK FALSE
